@@ -2326,3 +2326,110 @@ Section ReprojectDs.
     split; [reflexivity|]. split; [reflexivity|]. split; [exact V1|]. split; [exact V2 | exact V3].
   Qed.
 End ReprojectDs.
+
+Lemma xr_coords_st_dst tol dst cd :
+  is_affine_st tol (g_aff dst) = true -> g_crs dst = Some cd ->
+  let t := g_aff dst in
+  let dy := fst (crs_dims (g_crs dst)) in
+  let dx := snd (crs_dims (g_crs dst)) in
+  xr_coords tol (ABox dst) (Some DEFAULT_CRS_COORD_NAME) =
+  Ok [(dy, Coord [dy] (map (label (ff t) (fe t)) (iota (g_ny dst))) (st_attrs (fe t) (Some cd)) None);
+      (dx, Coord [dx] (map (label (fc t) (fa t)) (iota (g_nx dst))) (st_attrs (fa t) (Some cd)) None);
+      (DEFAULT_CRS_COORD_NAME, mk_crs_coord cd None (Some t))].
+Proof.
+  intros Hst Hcrs t dy dx. unfold xr_coords. cbn [box_crs]. subst t dy dx. rewrite Hst. rewrite Hcrs.
+  destruct (crs_dims_cases (Some cd)) as [E|E]; rewrite E; reflexivity.
+Qed.
+
+Lemma xr_coords_rot_dst tol dst cd :
+  is_affine_st tol (g_aff dst) = false -> g_crs dst = Some cd ->
+  let t := g_aff dst in
+  let dy := fst (crs_dims (g_crs dst)) in
+  let dx := snd (crs_dims (g_crs dst)) in
+  xr_coords tol (ABox dst) (Some DEFAULT_CRS_COORD_NAME) =
+  Ok [(dy, Coord [dy] (map pix_label (iota (g_ny dst))) [("units", VOther)] (Some t));
+      (dx, Coord [dx] (map pix_label (iota (g_nx dst))) [("units", VOther)] (Some t));
+      (DEFAULT_CRS_COORD_NAME, mk_crs_coord cd None (Some t))].
+Proof.
+  intros Hst Hcrs t dy dx. unfold xr_coords. cbn [box_crs]. subst t dy dx. rewrite Hst. rewrite Hcrs.
+  destruct (crs_dims_cases (Some cd)) as [E|E]; rewrite E; reflexivity.
+Qed.
+
+(** Dataset reprojection (repaired code), axis-aligned destination: the Dataset's own
+    attributes are pruned, and for every geo-registered variable the attributes are pruned
+    and [out[name]] recovers the destination GeoBox with its CRS. *)
+Lemma reproject_ds_st tol itol src dst nd out cd :
+  reproject_ds repaired tol itol src dst nd = Ok out ->
+  NoDup (map fst (x_vars src)) ->
+  g_crs dst = Some cd -> 1 <= g_ny dst -> 1 <= g_nx dst ->
+  is_affine_st tol (g_aff dst) = true ->
+  let t := g_aff dst in
+  let dy := fst (crs_dims (g_crs dst)) in
+  let dx := snd (crs_dims (g_crs dst)) in
+  (forall nv, In nv (x_vars src) ->
+     (exists syd sxd pre post, geo_var tol src nv syd sxd pre post) \/ plain_var tol itol src dst nd nv) ->
+  (forall k, In k SPATIAL_ATTRIBUTES -> lookup k (x_attrs out) = None) /\
+  (forall k, ~ In k SPATIAL_ATTRIBUTES -> lookup k (x_attrs out) = lookup k (x_attrs src)) /\
+  forall nv syd sxd pre post,
+    In nv (x_vars src) -> geo_var tol src nv syd sxd pre post ->
+    exists v view T,
+      lookup (fst nv) (x_vars out) = Some v /\
+      (forall k, In k SPATIAL_ATTRIBUTES -> lookup k (v_attrs v) = None) /\
+      ds_getitem out (fst nv) = Some view /\
+      locate_geo_info repaired tol view =
+        Ok (GeoState (Some (dy, dx)) (Some cd) (Some T) (Some (ABox (GBox (g_ny dst) (g_nx dst) T (Some cd))))) /\
+      aff_eq T (Aff (fa t) 0 (fc t) 0 (fe t) (ff t)).
+Proof.
+  intros Hrun Hnd Hcrs Hny Hnx Hst t dy dx Hall.
+  pose proof (xr_coords_st_dst tol dst cd Hst Hcrs) as Hnew. cbv zeta in Hnew. fold t dy dx in Hnew.
+  destruct (ds_out_attrs tol itol src dst nd out Hrun) as (A1 & _ & _).
+  split; [intros k Hk; rewrite A1; apply prune_spatial_removed; exact Hk|].
+  split; [intros k Hk; rewrite A1; apply prune_spatial_kept; exact Hk|].
+  intros nv syd sxd pre post Hin Hg.
+  destruct (ds_var_view tol itol src dst nd out _ _ _ _ None None (mk_crs_coord cd None (Some t))
+              Hnew eq_refl ltac:(lia) ltac:(lia) Hrun Hnd Hall nv syd sxd pre post Hin Hg)
+    as (dv & v & view & E1 & E2 & E3 & E4 & E5 & E6 & G).
+  destruct (georef_roundtrip_st tol t (Some cd) (Some DEFAULT_CRS_COORD_NAME) dy dx None view (g_ny dst) (g_nx dst) G Hst Hny Hnx)
+    as (T & E & A).
+  { right. split; congruence. }
+  exists v, view, T. split; [exact E2|]. split; [|split; [exact E5 | split; [exact E | exact A]]].
+  intros k Hk. rewrite E3. apply out_attrs_spatial; exact Hk.
+Qed.
+
+(** ... and for a rotated / sheared destination *)
+Lemma reproject_ds_rot tol itol src dst nd out cd :
+  reproject_ds repaired tol itol src dst nd = Ok out ->
+  NoDup (map fst (x_vars src)) ->
+  g_crs dst = Some cd -> 1 <= g_ny dst -> 1 <= g_nx dst ->
+  is_affine_st tol (g_aff dst) = false ->
+  let t := g_aff dst in
+  let dy := fst (crs_dims (g_crs dst)) in
+  let dx := snd (crs_dims (g_crs dst)) in
+  (forall nv, In nv (x_vars src) ->
+     (exists syd sxd pre post, geo_var tol src nv syd sxd pre post) \/ plain_var tol itol src dst nd nv) ->
+  (forall k, In k SPATIAL_ATTRIBUTES -> lookup k (x_attrs out) = None) /\
+  (forall k, ~ In k SPATIAL_ATTRIBUTES -> lookup k (x_attrs out) = lookup k (x_attrs src)) /\
+  forall nv syd sxd pre post,
+    In nv (x_vars src) -> geo_var tol src nv syd sxd pre post ->
+    exists v view T,
+      lookup (fst nv) (x_vars out) = Some v /\
+      (forall k, In k SPATIAL_ATTRIBUTES -> lookup k (v_attrs v) = None) /\
+      ds_getitem out (fst nv) = Some view /\
+      locate_geo_info repaired tol view =
+        Ok (GeoState (Some (dy, dx)) (Some cd) (Some T) (Some (ABox (GBox (g_ny dst) (g_nx dst) T (Some cd))))) /\
+      aff_eq T t.
+Proof.
+  intros Hrun Hnd Hcrs Hny Hnx Hst t dy dx Hall.
+  pose proof (xr_coords_rot_dst tol dst cd Hst Hcrs) as Hnew. cbv zeta in Hnew. fold t dy dx in Hnew.
+  destruct (ds_out_attrs tol itol src dst nd out Hrun) as (A1 & _ & _).
+  split; [intros k Hk; rewrite A1; apply prune_spatial_removed; exact Hk|].
+  split; [intros k Hk; rewrite A1; apply prune_spatial_kept; exact Hk|].
+  intros nv syd sxd pre post Hin Hg.
+  destruct (ds_var_view tol itol src dst nd out _ _ _ _ (Some t) (Some t) (mk_crs_coord cd None (Some t))
+              Hnew eq_refl ltac:(lia) ltac:(lia) Hrun Hnd Hall nv syd sxd pre post Hin Hg)
+    as (dv & v & view & E1 & E2 & E3 & E4 & E5 & E6 & G).
+  destruct (georef_roundtrip_rot tol t (Some cd) (Some DEFAULT_CRS_COORD_NAME) dy dx (Some t) view (g_ny dst) (g_nx dst) G Hny Hnx)
+    as (T & E & A).
+  exists v, view, T. split; [exact E2|]. split; [|split; [exact E5 | split; [exact E | exact A]]].
+  intros k Hk. rewrite E3. apply out_attrs_spatial; exact Hk.
+Qed.
